@@ -42,6 +42,21 @@ pub fn check(cfg: &e2e::Config, obs: &e2e::Observed) -> Option<(String, String)>
     None
 }
 
+/// C06 on the wire of a whole endpoint: whatever the session window does to a delivery (frames held
+/// back, the window re-opened a few frames at a time), its frames arrive in order — `more` on all but
+/// the last, the payloads concatenating to the message
+pub fn check_c06(cfg: &e2e::Config, obs: &e2e::Observed) -> Option<(String, String)> {
+    if !cfg.linger || !obs.errors.is_empty() {
+        return None;
+    }
+    for (k, (_, _, body)) in obs.deliveries.iter().enumerate() {
+        if k < cfg.sizes.len() && *body != e2e::body_of(cfg.seed, k, cfg.sizes[k]) {
+            return Some(("payloads-do-not-concatenate".into(), format!("delivery {}: the payloads of its transfer frames, in the order they arrived, are not the message (more flags {:?})", k, obs.transfers.iter().map(|t| t.more).collect::<Vec<_>>())));
+        }
+    }
+    None
+}
+
 pub fn main(opts: &Opts) {
     let mut report = Report::new(
         "C07",
@@ -57,7 +72,7 @@ pub fn main(opts: &Opts) {
                 println!("{}", l);
             }
             println!("client flows (next-outgoing-id, frames seen): {:?}; overruns: {:?}; errors: {:?}", obs.client_flows, obs.window_overruns, obs.errors);
-            match check(&cfg, &obs) {
+            match if opts.property == "C06" { check_c06(&cfg, &obs) } else { check(&cfg, &obs) } {
                 Some((k, d)) => {
                     println!("REPLAY: property violated [{}]: {}", k, d);
                     std::process::exit(1);
@@ -72,8 +87,9 @@ pub fn main(opts: &Opts) {
     }
     let mut rng = Rng::new(opts.seed ^ 0x5e55);
     // for C06 only the cut itself is judged (pieces, flags, sizes); the windows are C07's
-    let n = if opts.property == "C06" { 0 } else if opts.thorough() { 4000 } else { 400 };
-    let corpus = if opts.property == "C06" { vec![] } else { e2e::corpus() };
+    let c06 = opts.property == "C06";
+    let n = if c06 { if opts.thorough() { 2000 } else { 200 } } else if opts.thorough() { 4000 } else { 400 };
+    let corpus = if c06 { vec![] } else { e2e::corpus() };
     report.count_n("corpus_cases", corpus.len() as u64);
     for k in 0..(n + corpus.len() as u64) {
         let cfg = if (k as usize) < corpus.len() { corpus[k as usize].clone() } else { e2e::gen_config(&mut rng, k) };
@@ -90,6 +106,12 @@ pub fn main(opts: &Opts) {
         }
         if k % (n / 3).max(1) == 0 {
             report.sample(cfg.to_json());
+        }
+        if c06 {
+            if let Some((key, desc)) = check_c06(&cfg, &obs) {
+                report.finding(Finding { kind: "violation", key, description: desc, replay: json!({"property": "C06", "module": "sessionwire", "config": cfg.to_json()}) });
+            }
+            continue;
         }
         if let Some((key, desc)) = check(&cfg, &obs) {
             report.finding(Finding { kind: "violation", key, description: desc, replay: json!({"property": "C07", "module": "sessionwire", "config": cfg.to_json(), "trace": obs.trace.iter().rev().take(30).rev().collect::<Vec<_>>()}) });
